@@ -17,7 +17,7 @@ var c20 = core.Register(&core.Prop{
 	ID:    "C20",
 	Title: "A runner behaves like a plain map of data plus a separate key-value store",
 	Rule: "operation histories over one runner: SetThis (fresh / shared / nil maps, with and without $ entries), SetThisValue, Resolve of formulas that read and assign locals and fields and read this.k, Set, Get; " +
-		"all histories up to length n over 15 operation instances (exhaustive) and random histories up to length 40 with generated formulas; every result, every Get and every caller-held map compared with a model after each operation; " +
+		"all histories up to length n over 16 operation instances (exhaustive) and random histories up to length 40 with generated formulas; every result, every Get and every caller-held map compared with a model after each operation; " +
 		"non-trivial = history of >= 2 operations containing a Resolve; distinct by history",
 	Assumptions: []string{
 		"a runner is used by one goroutine (as the statement's 'sequence of operations' implies)",
@@ -295,12 +295,12 @@ func diffStore(model map[string]MV, got map[string]interface{}) string {
 
 func mvp(v MV) *MV { return &v }
 
-// the 15 operation instances of the exhaustive part
+// the 16 operation instances of the exhaustive part
 var c20Ops = []HOp{
 	{Op: "setthis", Map: 0}, {Op: "setthis", Map: 1}, {Op: "setthis", Map: -1},
 	{Op: "setvalue", Key: "x", Val: mvp(mvInt(2))}, {Op: "setvalue", Key: "$a", Val: mvp(mvInt(3))},
 	{Op: "resolve", Src: "$a = x + 1"}, {Op: "resolve", Src: "$a"}, {Op: "resolve", Src: "[x, this.x, $a, this.$a, u]"}, {Op: "resolve", Src: "$a = $a + 1, $b = $a"}, {Op: "resolve", Src: "$b"},
-	{Op: "resolve", Src: "$a = $a + nofn()"},
+	{Op: "resolve", Src: "$a = $a + nofn()"}, {Op: "resolve", Src: "$a = $a + null!.k"},
 	{Op: "set", Key: "u", Val: mvp(mvInt(9))}, {Op: "get", Key: "u"}, {Op: "set", Key: "x", Val: mvp(mvInt(100))}, {Op: "get", Key: "x"},
 }
 
@@ -328,7 +328,7 @@ func runC20(w *core.W) {
 			}
 		}
 	}
-	w.ExhaustivePart(fmt.Sprintf("all histories of 1..%d operations over 15 operation instances", nmax))
+	w.ExhaustivePart(fmt.Sprintf("all histories of 1..%d operations over 16 operation instances", nmax))
 	r := w.RNG("random")
 	g := &subGen{r: r, IntLocals: []string{"$i", "$a", "$b"}, AnyLocals: []string{"$p"}, IntNames: []string{"x", "y", "u"}, AnyNames: []string{"s", "y"}, ThisKeys: []string{"x", "$a", "$i", "u", "s"}}
 	keys := []string{"x", "y", "$a", "$i", "$p", "u", "s"}
